@@ -164,15 +164,19 @@ def search_wire(run):
 
 
 PROPS['C16'] = {
-    'modules': ['IpcModel.Props.C16', 'IpcModel.Props.C16Script'],
+    'modules': ['IpcModel.Props.C16', 'IpcModel.Props.C16Script', 'IpcModel.Props.C16Kind'],
+    'builds': ['default', 'force-inprocess'],
     'theorems': ['C16.C16_total', 'C16.C16_sound', 'C16.C16_roundtrip', 'Wire.dec_ne_panic_all', 'Wire.dec_sound_all', 'Wire.dec_enc',
-                 'C16.C16_to_script', 'C16.C16_takeAll_get', 'C16.C16_shape', 'C16.C16_code_variant'],
-    'scenarios': (lambda a: (lambda tier, seed: a(tier, seed) + [{'args': ['crash', '--shape', str(i), '--tier', tier]} for i in ((1, 2, 5) if tier == 'thorough' else (1,))]))(wire_scen('dec', 2400, 40000)),
+                 'C16.C16_to_script', 'C16.C16_takeAll_get', 'C16.C16_shape', 'C16.C16_code_variant',
+                 'C16Kind.C16_kind_partial', 'C16Kind.C16_kind_match', 'C16Kind.C16_kind_inproc_witness'],
+    'scenarios': (lambda a: (lambda tier, seed: a(tier, seed) + [{'args': ['crash', '--shape', str(i), '--tier', tier]} for i in ((1, 2, 5) if tier == 'thorough' else (1,))]
+                             + [{'build': b, 'args': ['kindmix']} for b in ('default', 'force-inprocess')]))(wire_scen('dec', 2400, 40000)),
     'search': search_wire,
     'rule': ('12 expected types x 4 styles (random bytes; valid encoding; mutated valid encoding; mutated encoding with random attachment lists) '
              'x 0..8 channel attachments (sender or receiver ends) x 0..3 regions, each decoded by the real IpcReceiver::recv under catch_unwind; '
              'every case is non-trivial; distinct = distinct (type, bytes, attachments); crash: after a message whose sender process was killed mid-send (attachments attached, '
-             'discarded by the receiver) the next message must carry exactly its own attachments (count and identity probe)'),
+             'discarded by the receiver) the next message must carry exactly its own attachments (count and identity probe); kindmix: a receiver decoded as a sender and vice versa '
+             '(top level, in an Option, in a Vec after a well-kinded endpoint) x recv / try_recv / receiver set + to, on the OS and the in-process transport: no panic, and the thread decodes the next message'),
     'explanation': ('decoder totality (never panic), soundness (endpoints are a sub-multiset of this message\'s attachments, each used once) and round trip '
                     'proved for all bytes/attachments/types of the Schema family; the real decoder compared result-by-result with the model; release of unused '
                     'attachments checked by observing disconnection and /proc/self/fd'),
@@ -181,7 +185,9 @@ PROPS['C16'] = {
     'level_text': ('Kernel-checked: the repaired decoder never panics on any bytes/attachments/type, every decoded endpoint is one of the message\'s '
                    'attachments used at most once, well-typed values round-trip; real decoder vs model on fuzzed and mutated inputs; attachment release '
                    'observed on the real crate'),
-    'level_note': 'Trusted: Lean kernel, harness, bincode 1.3 modelled for the Schema family (tied by differential decode); drop-based release observed, not proved',
+    'level_note': ('Trusted: Lean kernel, harness, bincode 1.3 modelled for the Schema family (tied by differential decode); drop-based release observed, not proved. '
+                   'OPEN FINDING D18: on the in-process transport an endpoint decoded as the other kind (sender <-> receiver) panics (to_sender / to_receiver); proved only for transports '
+                   'without kind information and for a kind-aware transport that answers with an error (C16_kind_partial), witness C16_kind_inproc_witness, replayed by the kindmix scenario'),
 }
 PROPS['C01']['scenarios'] = (lambda old: (lambda tier, seed: old(tier, seed) + wire_scen('enc', 1200, 20000)(tier, seed) + bytes_scen(['default'], 150, 3000)(tier, seed)))(PROPS['C01']['scenarios'])
 PROPS['C01']['modules'] = ['IpcModel.Props.C01', 'IpcModel.Props.C16', 'IpcModel.Props.C01Value']
